@@ -154,6 +154,10 @@ def c04_runs(tier):
     for N in (7, 8):
         r.append(timers_run('store.step.N%d' % N, covers=['C05.step-unregister'], mode=1, N=N, sym=3))
     r += timerfd_task(tier)
+    # the public clock: handlers read iv_now and call iv_invalidate_now between timer operations; inside a timer
+    # handler iv_now is at or past the expiry, it never runs backwards and is never ahead of the kernel clock
+    r += per_method('iv_now', [0] if q else [0, 1, 2, 3], ['timer.handler-ran', 'C04.iv_now-read'], K=1, T=2,
+                    R=3 if q else 4, acts=A_TIMER | A_VALIDATE, A=2, L=2 if q else 3, symtruth=0, symtime=2, patterns=1)
     return r
 
 
@@ -167,6 +171,11 @@ def c06_runs(tier):
     # repeated-deadline optimisation to engage on it
     nofd += per_method('task-chain', [0] if q else [0, 1], ['task.handler-ran', 'C06.deferred-reregistration-observed'],
                        K=0, T=0, J=1, R=9, acts=A_TASK, A=1, L=9, symtruth=0)
+    # the same chain while the kernel clock moves on (0.4 s per iteration) past the expiry of a registered timer:
+    # the tasks do not keep the timer from being serviced
+    nofd += per_method('task-chain+timer', [0, 1] if q else [0, 1, 2, 3],
+                       ['task.handler-ran', 'timer.handler-ran', 'C06.deferred-reregistration-observed'],
+                       K=0, T=2, J=1, R=9, acts=A_TASK, A=1, L=9, symtruth=0, tick=400000000)
     nofd += per_method('tasks.any-epoch', [1], ['task.handler-ran', 'C06.deferred-reregistration-observed'],
                        K=0, T=1, J=2, R=3, acts=A_TASK, A=2, L=3, symtruth=0, symepoch=1)
     return nofd + per_method('tasks', [0, 2] if q else [0, 1, 2, 3],
@@ -251,6 +260,10 @@ def c17_runs(tier):
          pump_run('splice.relay', 4, cv + ['pump.splice-pipe-full'], N=N, B=B, splice=1, relay=1, pipecap=3),
          pump_run('splice.nopipe2', 4, [c for c in noeintr if c != 'pump.buffer-full'], N=N, B=B - 1, splice=1,
                   relay=0, pipecap=4, nopipe2=1, eintr=0)]
+    if q:
+        # a stream longer than the copy buffer (the thorough tier has B=6 in every run)
+        r.append(pump_run('rw.stream-longer-than-buffer', 4, ['pump.done', 'pump.buffer-full', 'pump.output-would-block'],
+                          N=4, B=6, splice=0, relay=1, eintr=0, err=0))
     # two pumps one after the other on the same thread (buffer cache): after errors with data buffered
     r.append(pump_run('splice.two-pumps', 4, ['pump.second-pump-on-same-thread', 'pump.done', 'pump.output-error'],
                       N=3, B=3, splice=1, relay=1, pipecap=3, pumps=2, eintr=0, eagain=1))
@@ -374,6 +387,10 @@ def c10_runs(tier, hb=0):
                 D=2 if q else 3, hb=hb),
          mt_run('handoff', h, ['signal.exclusive-handoff', 'signal.handler-ran'], preempt=1 if q else 2, I=3, T=1, D=2,
                 ops=1, twosigs=1, nflags=2, order=1, hb=hb),
+         # two signal numbers, the second one arriving while the loop thread is inside the library's own
+         # processing of the first (also while it holds the interest lock: delivery point after lock acquisition)
+         mt_run('two-signals.second-arrives-during-first', h, ['signal.handler-ran', 'signal.quiescent'],
+                preempt=2 if q else 3, I=2, T=1, D=2, twosigs=1, nflags=1 if q else 2, unreg=0, ops=0, hb=hb),
          mt_run('fork-child', h, ['signal.child-does-not-trigger-parent', 'env.fork-child-copy-explored',
                                      'signal.child-registers-own-interest'], preempt=1,
                 I=2, T=1, D=1, forkchild=1, hb=hb),
@@ -422,7 +439,13 @@ def c11_runs(tier, hb=0):
          # reaper thread may be collecting that very child
          mt_run('two-loops.spontaneous-unregister', h,
                 ['wait.reaper-is-another-thread', 'wait.spontaneous-unregister', 'wait.termination-delivered'],
-                preempt=1 if q else 2, C=3, strangers=0, events=2, twoloops=2, ops=0, unreg=0, spont=1, hb=hb)]
+                preempt=1 if q else 2, C=3, strangers=0, events=2, twoloops=2, ops=0, unreg=0, spont=1, hb=hb),
+         # the owner signals a child through its interest on its own while the reaper thread may be collecting it:
+         # no signal to a pid already reaped, and the status test is synchronised with the reaper
+         mt_run('two-loops.spontaneous-kill', h,
+                ['wait.reaper-is-another-thread', 'wait.spontaneous-kill', 'wait.termination-delivered'],
+                preempt=1 if q else 2, C=3, strangers=0, events=2, twoloops=2, ops=0, unreg=0, spont=1, spontkill=1,
+                hb=hb)]
     if not q:
         r.append(mt_run('two-loops.reaper-elsewhere.p2', h, ['wait.batch-of-several-statuses'], preempt=2, C=3,
                         strangers=0, events=2, twoloops=2, ops=1, hb=hb))
@@ -539,6 +562,11 @@ def c15_runs(tier):
     r += [x for x in c09_runs(tier) if x['name'].startswith('burst.unknown-size')]
     # pipe2 / splice
     r.append(pump_run('pump.no-splice-no-pipe2', 4, ['pump.done'], N=3, B=3, splice=0, relay=1, nopipe2=1))
+    # without splice the copy buffer (4 bytes with the hook) is the only store: a stream longer than it, the buffer
+    # exactly full while the destination accepts nothing
+    r.append(pump_run('pump.no-splice.stream-longer-than-buffer', 4, ['pump.done', 'pump.buffer-full',
+                                                                      'pump.output-would-block'],
+                      N=4, B=6, splice=0, relay=1, eintr=0, err=0))
     r.append(pump_run('pump.splice-no-pipe2', 4, ['pump.done'], N=3, B=3, splice=1, relay=1, nopipe2=1, pipecap=3))
     return r
 
@@ -547,11 +575,12 @@ def c18_runs(tier):
     q = tier == 'quick'
     defs = ['-DIVYKIS_VERIF_TIMER_SPLIT_BITS=2', '-DIVYKIS_VERIF_PUMP_BUF_SIZE=8']
     cv = ['lifecycle.complete', 'lifecycle.main-thread-cycle-clean', 'lifecycle.thread-with-deinit-clean',
-          'lifecycle.thread-without-deinit-clean', 'lifecycle.deinit-with-timers-registered']
+          'lifecycle.thread-without-deinit-clean', 'lifecycle.deinit-with-timers-registered',
+          'lifecycle.failed-register_try']
     r = []
     for m in range(4):
         x = mt_run('cycles.' + METHODS[m], 'harness/lifecycle.c', cv, preempt=1 if q else 2, method=m,
-                   cycles=2 if q else 3, timers=20, parts=127, noeventfd=1 if m == 3 else 0,
+                   cycles=2 if q else 3, timers=20, parts=255, noeventfd=1 if m == 3 else 0,
                    splice=0 if m == 2 else 1)
         x['defs'] = defs
         r.append(x)
@@ -567,7 +596,7 @@ def c14_runs(tier):
     q = tier == 'quick'
     allruns = (c08_runs(tier, hb=1) + c09_runs(tier, hb=1) +
                [x for x in c10_runs(tier, hb=1) if x['name'] in ('two-threads', 'one-thread.I2', 'concurrent-forks')] +
-               [x for x in c11_runs(tier, hb=1) if x['name'] in ('spawn+kill', 'two-loops.spawn-exits-at-once', 'two-loops.reaper-elsewhere', 'two-loops.spontaneous-unregister', 'two-loops.reaper-elsewhere.p2')] +
+               [x for x in c11_runs(tier, hb=1) if x['name'] in ('spawn+kill', 'two-loops.spawn-exits-at-once', 'two-loops.reaper-elsewhere', 'two-loops.spontaneous-unregister', 'two-loops.spontaneous-kill', 'two-loops.reaper-elsewhere.p2')] +
                [x for x in work_runs(tier, hb=1) if x['name'] != 'null-pool'])
     for m, nm in ((1, 'epoll'), (0, 'epoll-timerfd'), (3, 'poll')):
         allruns.append(mt_run('loops.' + nm, 'harness/loops_mt.c', ['loops.concurrent-init-run-deinit'],
@@ -579,7 +608,7 @@ def c14_runs(tier):
     if q:
         keep = ('posters.epoll-kick', 'posters.rawevent-poll', 'owner-activity.epoll', 'pipe-transport', 'owner-pre-ops.epoll',
                 'threads.eventfd2', 'threads.pipe', 'signal.eventfd2', 'one-thread.I2', 'concurrent-forks', 'spawn+kill',
-                'two-loops.spawn-exits-at-once', 'two-loops.reaper-elsewhere', 'two-loops.spontaneous-unregister', 'burst.max1.put-after', 'burst.max2.put-after',
+                'two-loops.spawn-exits-at-once', 'two-loops.reaper-elsewhere', 'two-loops.spontaneous-unregister', 'two-loops.spontaneous-kill', 'burst.max1.put-after', 'burst.max2.put-after',
                 'chain.put-in-completion', 'idle-timeout.late-submit', 'continuation.put-late', 'iv_thread',
                 'loops.epoll', 'loops.epoll-timerfd', 'loops.poll', 'loops.method-switch-mid-run', 'loops.each-starts-a-thread')
         allruns = [x for x in allruns if x['name'] in keep]
